@@ -52,13 +52,16 @@ theorem cum_insertDelta (acc : Int) (l : List Entry) (d : Int) (c : Call) :
   | nil => simp [insertDelta, insC]
   | cons x xs ih =>
     unfold insertDelta
+    -- tie: the generated comparison of the insertion loop is `(*copp)->delta >= delay`
+    have tie_insertBefore : NV.Gen.C10.insertBefore x.delta d = decide (x.delta ≥ d) := rfl
+    rw [tie_insertBefore]
     by_cases h : x.delta ≥ d
     · have h' : acc + x.delta ≥ acc + d := by omega
-      simp only [h, ite_true, cum_cons, insC, h']
+      simp only [h, decide_true, ite_true, cum_cons, insC, h']
       have : acc + d + (x.delta - d) = acc + x.delta := by omega
       simp [this]
     · have h' : ¬ (acc + x.delta ≥ acc + d) := by omega
-      simp only [h, ite_false, cum_cons, insC, h']
+      simp only [h, decide_false, Bool.false_eq_true, ite_false, cum_cons, insC, h']
       rw [ih]
       have : acc + x.delta + (d - x.delta) = acc + d := by omega
       rw [this]
